@@ -7,7 +7,7 @@ CONSTANTS
   EmitSet <- EmitNone
   ExpandTexts <- ExpandTables
   ParseTexts <- ParseTables
-  Markers <- MarkersMore
+  Markers <- MarkersMoreR
   MaxMsgs = 1
   MaxMarkers = 3
 INVARIANT TypeOK
